@@ -305,6 +305,27 @@ func genC14Base(rt *rapid.T, exotic bool) (*lib.Stmt, []lib.Pair) {
 func TestC14WellTyped(t *testing.T) {
 	rapid.Check(t, func(rt *rapid.T) {
 		st, pairs := genC14Base(rt, false)
+		if rapid.IntRange(0, 7).Draw(rt, "raggedLists") == 0 {
+			// round 12: an element of a list of texts, compared with a text,
+			// over values that split into lists of different lengths (an index
+			// past the end of a short list is still a text for the checker:
+			// whatever it evaluates to, the comparison must not meet another kind)
+			n := rapid.IntRange(2, 9).Draw(rt, "raggedRows")
+			pairs = pairs[:0]
+			for i := 0; i < n; i++ {
+				np := rapid.IntRange(1, 4).Draw(rt, "raggedParts")
+				parts := make([]string, np)
+				for j := range parts {
+					parts[j] = rapid.SampledFrom([]string{"a", "b", "", "7"}).Draw(rt, "raggedPart")
+				}
+				pairs = append(pairs, lib.Pair{K: fmt.Sprintf("k%d", i), V: strings.Join(parts, ",")})
+			}
+			idx := int64(rapid.IntRange(0, 3).Draw(rt, "raggedIndex"))
+			elem := func() *lib.Node { return lib.Index(lib.Call("split", lib.Value(), lib.Str(",")), idx) }
+			op := rapid.SampledFrom([]string{"=", "!=", "<", ">="}).Draw(rt, "raggedOp")
+			st = &lib.Stmt{Kind: "select", Fields: []lib.SelField{{E: lib.Key()}, {E: elem()}},
+				Where: lib.Bin(op, elem(), lib.Str(rapid.SampledFrom([]string{"a", "b", ""}).Draw(rt, "raggedLit")))}
+		}
 		c := &c14Case{Stmt: st, Pairs: pairs}
 		lib.Journal("C14", "c14", c)
 		msg, nt, labels := checkC14(c)
